@@ -290,6 +290,61 @@ pub fn run_slow_drain(spec: Spec, chunk: usize, pause: Duration) -> CliRun {
     CliRun { stdout: out, stderr, code, signal: if timed_out { None } else { signal }, timed_out, spawn_error: None }
 }
 
+/// Run with stdout on a pipe whose reader takes `after` bytes and then closes its end.
+pub fn run_close_early(spec: Spec, after: usize) -> CliRun {
+    let exe = match spec.exe {
+        Some(p) => p.to_path_buf(),
+        None => std::env::current_exe().expect("current_exe"),
+    };
+    let mut cmd = Command::new(exe);
+    cmd.args(&spec.args).stdout(Stdio::piped()).stderr(Stdio::piped()).stdin(Stdio::null());
+    cmd.env_remove("RUST_BACKTRACE");
+    let mut child = match cmd.spawn() {
+        Ok(c) => c,
+        Err(e) => return CliRun { stdout: vec![], stderr: vec![], code: None, signal: None, timed_out: false, spawn_error: Some(e.to_string()) },
+    };
+    let mut so = child.stdout.take().unwrap();
+    let mut se = child.stderr.take().unwrap();
+    let t_err = std::thread::spawn(move || {
+        let mut v = Vec::new();
+        let _ = se.read_to_end(&mut v);
+        v
+    });
+    let mut out = vec![0u8; after];
+    let mut got = 0usize;
+    while got < after {
+        match so.read(&mut out[got..]) {
+            Ok(0) | Err(_) => break,
+            Ok(n) => got += n,
+        }
+    }
+    out.truncate(got);
+    drop(so);
+    // bounded wait
+    let start = Instant::now();
+    let mut timed_out = false;
+    let status = loop {
+        match child.try_wait() {
+            Ok(Some(s)) => break Some(s),
+            Ok(None) => {
+                if start.elapsed() > spec.timeout {
+                    timed_out = true;
+                    let _ = child.kill();
+                    break child.wait().ok();
+                }
+                std::thread::sleep(Duration::from_millis(2));
+            }
+            Err(_) => break None,
+        }
+    };
+    let stderr = t_err.join().unwrap_or_default();
+    let (code, signal) = match status {
+        Some(s) => (s.code(), s.signal()),
+        None => (None, None),
+    };
+    CliRun { stdout: out, stderr, code, signal: if timed_out { None } else { signal }, timed_out, spawn_error: None }
+}
+
 /// Run with stdin fed in small chunks with pauses, so that the child's reads return short counts.
 pub fn run_chunked_stdin(spec: Spec, data: &[u8], chunk: usize, pause: Duration) -> CliRun {
     let exe = match spec.exe {
